@@ -51,6 +51,9 @@ type C17Plan struct {
 	EndPick  []int                   `json:"end_pick"` // successor choice when a task finishes
 	Order    verifhook.OrderPolicy   `json:"order"`
 	Hot      bool                    `json:"hot,omitempty"` // one hot operation on (almost) every task
+	// TwinFirst: also take the reference results BEFORE the concurrent phase (warms lazily filled
+	// state, so only some runs do it) and demand that they agree with those taken after it
+	TwinFirst bool `json:"twin_first,omitempty"`
 	// SharedMapper: all tasks use ONE schema service (as a server's meta client is shared), which
 	// answers from maps it keeps; its schema is SharedSchema
 	SharedMapper bool       `json:"shared_mapper,omitempty"`
@@ -71,7 +74,7 @@ func (C17) Meta() core.Meta {
 		},
 		Real:       []string{"influxql (instrumented copy of the working tree, built with -race)", "ThreadSanitizer runtime as the data-race judge", "regexp, strings.Replacer, fmt, time zone cache (race-instrumented std, atomic from the scheduler's point of view)"},
 		Stub:       []string{"Go scheduler / goroutine interleaving (plan-driven baton over real goroutines)", "Go map iteration order", "meta store and valuers (per-task stubs; callbacks are yield points)"},
-		ProbeNames: []string{"shared-mapper", "switch-inside-op", "switch-in-callback", "shared-op", "independent-op", "all-parse", "all-shared", "hot-op", "tasks>=4", "preempt>=4", "twin-compared"},
+		ProbeNames: []string{"twin-before-and-after", "shared-mapper", "switch-inside-op", "switch-in-callback", "shared-op", "independent-op", "all-parse", "all-shared", "hot-op", "tasks>=4", "preempt>=4", "twin-compared"},
 		FaultNames: []string{"preemption", "mapper-error"},
 	}
 }
@@ -158,6 +161,7 @@ func (C17) NewPlan(r *core.Rand, tier string, i uint64) interface{} {
 		p.Tasks = append(p.Tasks, tp)
 		p.EndPick = append(p.EndPick, r.Intn(8))
 	}
+	p.TwinFirst = r.Chance(1, 3)
 	if r.Chance(1, 4) {
 		p.SharedMapper = true
 		p.SharedSchema = gen.GenSchema(r)
@@ -407,6 +411,36 @@ func (C17) Exec(pi interface{}) *core.RunResult {
 	verifhook.SetOrder(p.Order)
 	defer verifhook.SetOrder(verifhook.OrderPolicy{})
 
+	runTwin := func() ([][]opResult, int64) {
+		twin := make([][]opResult, n)
+		var total int64
+		for t := 0; t < n; t++ {
+			twin[t] = make([]opResult, len(p.Tasks[t].Ops))
+			ctx := newOpCtx(&p.Tasks[t].Env)
+			if p.SharedMapper {
+				ctx.fm = simschema.NewFrozenMapper(p.SharedSchema, true) // "alone": its own, untouched service
+			}
+			for k := range p.Tasks[t].Ops {
+				sh := parseShared(p.Shared)
+				op := &p.Tasks[t].Ops[k]
+				var out string
+				verifhook.BeginOp(opBudget)
+				pan := core.Guard(func() { out = runTaskOp(op, ctx, sh) })
+				steps := verifhook.EndOp()
+				twin[t][k] = opResult{out, pan, steps}
+				total += steps + 1
+			}
+		}
+		return twin, total
+	}
+	var twinBefore [][]opResult
+	if p.TwinFirst {
+		var tb int64
+		twinBefore, tb = runTwin()
+		res.Steps += tb
+		res.Probe("twin-before-and-after")
+	}
+
 	// concurrent phase
 	shared := parseShared(p.Shared)
 	var pre []verifhook.Preempt
@@ -468,27 +502,8 @@ func (C17) Exec(pi interface{}) *core.RunResult {
 	// The concurrent phase runs FIRST so that lazily filled process-wide state is as cold as the
 	// process history allows; the reference results are computed afterwards.
 	// sequential twin: every operation alone, on a fresh parse, same service plans
-	twin := make([][]opResult, n)
-	var total int64
-	for t := 0; t < n; t++ {
-		twin[t] = make([]opResult, len(p.Tasks[t].Ops))
-		ctx := newOpCtx(&p.Tasks[t].Env)
-		if p.SharedMapper {
-			ctx.fm = simschema.NewFrozenMapper(p.SharedSchema, true) // "alone": its own, untouched service
-		}
-		for k := range p.Tasks[t].Ops {
-			sh := parseShared(p.Shared)
-			op := &p.Tasks[t].Ops[k]
-			var out string
-			verifhook.BeginOp(opBudget)
-			pan := core.Guard(func() { out = runTaskOp(op, ctx, sh) })
-			steps := verifhook.EndOp()
-			twin[t][k] = opResult{out, pan, steps}
-			total += steps + 1
-		}
-	}
+	twin, total := runTwin()
 	res.Steps += total
-
 
 	plan := func() string {
 		var b strings.Builder
@@ -512,6 +527,24 @@ func (C17) Exec(pi interface{}) *core.RunResult {
 		}
 		return b.String()
 	}
+
+	if twinBefore != nil {
+		// reference results taken before the concurrent phase must agree with those taken after it:
+		// a concurrent phase that leaves process-wide state poisoned would otherwise fool both
+		for t := 0; t < n; t++ {
+			for k := range twin[t] {
+				a, b := twinBefore[t][k], twin[t][k]
+				if (a.pan == nil) != (b.pan == nil) || (a.pan == nil && a.out != b.out) {
+					name := p.Tasks[t].Ops[k].Kind
+					if name == "shared" {
+						name = "shared:" + p.Tasks[t].Ops[k].Op.Name
+					}
+					res.Violate("state-poisoned:"+name, fmt.Sprintf("task %d op %d (%s): the same call made alone gives a different result after the concurrent phase than before it\n  before: %s\n  after:  %s\n%s", t, k, name, clip(a.out), clip(b.out), plan()))
+				}
+			}
+		}
+	}
+
 
 	// oracle 1: data races
 	if races > 0 {
